@@ -8,6 +8,8 @@ mod treegen;
 mod c03;
 mod hist;
 mod c01;
+mod eng;
+mod c15;
 
 fn main() {
     let args: Vec<String> = std::env::args().collect();
@@ -21,6 +23,9 @@ fn main() {
         "f32" => f32ops::main(rest),
         "c03" => c03::main(rest),
         "c01" => c01::main(rest),
+        "eng" => eng::main(rest),
+        "c15" => c15::main15(rest),
+        "c16" => c15::main16(rest),
         other => {
             eprintln!("unknown property {other}");
             std::process::exit(2);
